@@ -688,7 +688,14 @@ def decorate_with_checker(func: CallableT) -> CallableT:
             "a reserved placeholder for keyword arguments in the condition."
         )
 
-    param_names = list(sign.parameters.keys())
+    # The keyword-only parameters and the variable keyword parameter can not be bound to
+    # the positional arguments of a call.
+    param_names = [
+        param.name
+        for param in sign.parameters.values()
+        if param.kind
+        not in (inspect.Parameter.KEYWORD_ONLY, inspect.Parameter.VAR_KEYWORD)
+    ]
 
     # Determine the default argument values
     kwdefaults = resolve_kwdefaults(sign=sign)
